@@ -220,6 +220,8 @@ def observed_store_class():
             self.world = world
             self.tag = tag
             self.fail_writes = ()     # markers whose write() is refused
+            self.fail_ops = ()        # (op, n): the n-th call of op fails
+            self.op_counts = {}
 
         def _rec(self, op, id, fn, *args):
             w = self.world
@@ -229,6 +231,13 @@ def observed_store_class():
                    's1': None}
             self.obs['store_ops'].append(rec)
             w.log('ST', self.tag, op, 'start')
+            self.op_counts[op] = n_op = self.op_counts.get(op, 0) + 1
+            if (op, n_op) in self.fail_ops:
+                # scripted storage fault: this call fails, once
+                def fn(*a):
+                    from slimta.queue import QueueError
+                    w.fault('store-%s-refused' % op)
+                    raise QueueError('scripted %s failure' % op)
             try:
                 r = fn(*args)
             except BaseException as e:
@@ -444,7 +453,8 @@ def script_relay_class():
                         truth[r] = 'perm'
                         rec['replies'][r] = (rp.code, rp.message)
                 if t == 'seq':
-                    return res
+                    # any sequence is a legal per-recipient result
+                    return tuple(res) if spec.get('as') == 'tuple' else res
                 pairs = list(zip(rcpts, res))
                 # a mapping is keyed by recipient: its iteration order is
                 # the relay's business (e.g. a relay that groups by domain)
@@ -793,6 +803,7 @@ def build(world, scn, obs, fs=None, counts=None, bounces=0):
     OS = observed_store_class()
     store = OS(sub.new_storage(), obs, world, 's')
     store.fail_writes = tuple(scn.get('write_fail') or ())
+    store.fail_ops = tuple((o, n) for o, n in scn.get('store_faults') or ())
     if scn.get('relay') in ('smtp', 'lmtp'):
         world.probe('relay:' + scn['relay'])
         relay = smtp_relay(world, scn, obs)
